@@ -760,6 +760,143 @@ func translate(fl flavour, path string) (fns map[string]string, loops map[string
 	return fns, loops, errs
 }
 
+// walkFn recognises the four traversals of the inner list:
+//
+//	for element := l.<start>(); element != nil; element = element.<adv>() { callback(element.Value()) }
+//	for …  { if err := callback(element.Value()); err != nil { return err } } ; return nil
+func walkFn(fset *token.FileSet, fd *ast.FuncDecl) (string, error) {
+	recv, _ := recvType(fd)
+	bad := func(why string) (string, error) {
+		return "", fmt.Errorf("%s: not a traversal of the expected shape (%s)", fset.Position(fd.Pos()), why)
+	}
+	if len(fd.Type.Params.List) != 1 || len(fd.Type.Params.List[0].Names) != 1 {
+		return bad("parameters")
+	}
+	cb := fd.Type.Params.List[0].Names[0].Name
+	body := fd.Body.List
+	if len(body) == 0 {
+		return bad("empty")
+	}
+	loop, ok := body[0].(*ast.ForStmt)
+	if !ok {
+		return bad("no loop")
+	}
+	var buf bytes.Buffer
+	pr := func(n ast.Node) string {
+		buf.Reset()
+		_ = printer.Fprint(&buf, fset, n)
+
+		return strings.Join(strings.Fields(buf.String()), " ")
+	}
+	init, ok := loop.Init.(*ast.AssignStmt)
+	if !ok || init.Tok != token.DEFINE || len(init.Lhs) != 1 || len(init.Rhs) != 1 {
+		return bad("init")
+	}
+	ev := init.Lhs[0].(*ast.Ident).Name
+	start := ""
+	for _, f := range []string{"Front", "Back"} {
+		if pr(init.Rhs[0]) == recv+"."+f+"()" {
+			start = f
+		}
+	}
+	if start == "" {
+		return bad("start " + pr(init.Rhs[0]))
+	}
+	if pr(loop.Cond) != ev+" != nil" {
+		return bad("condition " + pr(loop.Cond))
+	}
+	adv := ""
+	for _, f := range []string{"Next", "Prev"} {
+		if pr(loop.Post) == ev+" = "+ev+"."+f+"()" {
+			adv = f
+		}
+	}
+	if adv == "" {
+		return bad("post " + pr(loop.Post))
+	}
+	if len(loop.Body.List) != 1 {
+		return bad("body")
+	}
+	call := cb + "(" + ev + ".Value())"
+	abortable := false
+	switch b := pr(loop.Body.List[0]); b {
+	case call:
+		if len(body) != 1 {
+			return bad("statements after the loop")
+		}
+	case "if err := " + call + "; err != nil { return err }":
+		abortable = true
+		if len(body) != 2 || pr(body[1]) != "return nil" {
+			return bad("statements after the loop")
+		}
+	default:
+		return bad("body " + b)
+	}
+
+	return fmt.Sprintf("{ start := .%s, adv := .%s, abortable := %v }", start, adv, abortable), nil
+}
+
+// walks emits the four traversals and the printed body of Values().
+func walks(path string, errs *[]string) string {
+	fset := token.NewFileSet()
+	file, err := parser.ParseFile(fset, path, nil, 0)
+	if err != nil {
+		*errs = append(*errs, err.Error())
+
+		return ""
+	}
+	var b strings.Builder
+	found := map[string]bool{}
+	for _, d := range file.Decls {
+		fd, ok := d.(*ast.FuncDecl)
+		if !ok || fd.Body == nil {
+			continue
+		}
+		_, typ := recvType(fd)
+		if typ != "list" {
+			continue
+		}
+		switch fd.Name.Name {
+		case "ForEach", "ForEachReverse", "Range", "RangeReverse":
+			w, err := walkFn(fset, fd)
+			if err != nil {
+				*errs = append(*errs, "hive: "+err.Error())
+				w = "{ start := .Value, adv := .Value, abortable := false }"
+			}
+			fmt.Fprintf(&b, "def hive_%s : WalkFn := %s\n\n", fd.Name.Name, w)
+			found[fd.Name.Name] = true
+		case "Values":
+			var buf bytes.Buffer
+			_ = printer.Fprint(&buf, fset, fd.Body)
+			fmt.Fprintf(&b, "def hive_Values : List String := [")
+			first := true
+			for _, l := range strings.Split(buf.String(), "\n") {
+				if l = strings.TrimSpace(l); l != "" {
+					if !first {
+						b.WriteString(", ")
+					}
+					first = false
+					b.WriteString("\"" + strings.ReplaceAll(strings.ReplaceAll(l, "\\", "\\\\"), "\"", "\\\"") + "\"")
+				}
+			}
+			b.WriteString("]\n\n")
+			found["Values"] = true
+		}
+	}
+	for _, n := range []string{"ForEach", "ForEachReverse", "Range", "RangeReverse"} {
+		if !found[n] {
+			*errs = append(*errs, "hive: "+n+" not found")
+			fmt.Fprintf(&b, "def hive_%s : WalkFn := { start := .Value, adv := .Value, abortable := false }\n\n", n)
+		}
+	}
+	if !found["Values"] {
+		*errs = append(*errs, "hive: Values not found")
+		b.WriteString("def hive_Values : List String := []\n\n")
+	}
+
+	return b.String()
+}
+
 // wrappers: for every method of the thread-safe wrapper the inner call it delegates to and which of its own
 // parameters it passes, in order ("p0", "p1"; anything else is printed as source text).
 func wrappers(path string) []string {
@@ -835,7 +972,7 @@ func constructors(path string) []string {
 		if !ok || fd.Body == nil || fd.Recv != nil {
 			continue
 		}
-		if fd.Name.Name != "newList" && fd.Name.Name != "newThreadSafeList" {
+		if fd.Name.Name != "newList" && fd.Name.Name != "newThreadSafeList" && fd.Name.Name != "NewList" {
 			continue
 		}
 		var buf bytes.Buffer
@@ -852,8 +989,8 @@ func constructors(path string) []string {
 }
 
 func main() {
-	if len(os.Args) != 5 {
-		fmt.Fprintln(os.Stderr, "usage: xlate <out.lean> <LeanNamespace> <ds/list_impl.go> <container/list/list.go>")
+	if len(os.Args) != 5 && len(os.Args) != 6 {
+		fmt.Fprintln(os.Stderr, "usage: xlate <out.lean> <LeanNamespace> <ds/list_impl.go> <container/list/list.go> [<ds/list.go>]")
 		os.Exit(2)
 	}
 	var b strings.Builder
@@ -894,6 +1031,7 @@ func main() {
 			fmt.Fprintf(&b, "def %s_%s : LoopFn :=\n  %s\n\n", fl.name, ln, body)
 		}
 	}
+	b.WriteString(walks(os.Args[3], &allErrs))
 	fmt.Fprintf(&b, "/-- thread-safe wrapper: method -> delegated inner call with the parameters passed -/\ndef hive_wrappers : List String := [")
 	for i, w := range wrappers(os.Args[3]) {
 		if i > 0 {
@@ -903,7 +1041,11 @@ func main() {
 	}
 	b.WriteString("]\n\n")
 	fmt.Fprintf(&b, "/-- bodies of newList / newThreadSafeList -/\ndef hive_constructors : List String := [")
-	for i, w := range constructors(os.Args[3]) {
+	cons := constructors(os.Args[3])
+	if len(os.Args) == 6 {
+		cons = append(cons, constructors(os.Args[5])...)
+	}
+	for i, w := range cons {
 		if i > 0 {
 			b.WriteString(",\n  ")
 		}
